@@ -1,7 +1,8 @@
 (* C04/Property.v — property theorems only. *)
 From Coq Require Import String List Bool.
-From Verif Require Import Base.Str Base.Py C04.Model C04.Spec C04.Proofs C04.Source.
-From VerifGen Require Import C04Src.
+From Coq Require Import ZArith.
+From Verif Require Import Base.Str Base.Py Base.Py2 C04.Model C04.Spec C04.Proofs C04.Source C04.Source2.
+From VerifGen Require Import C04Src C04Src2.
 
 (* C04: identity is never produced from a mis-addressed assertion — for every
    audience structure, destination, recipient, conversation info, endpoint
@@ -40,7 +41,7 @@ Print Assumptions c04_trace_reflect.
 
 (* the verdict on a Response does not depend on the calls made before or after it *)
 Theorem c04_history_independent : forall pre post x,
-  nth_error (run_ops (pre ++ OParse x :: post)) (length pre) = Some (RId (identity x)).
+  nth_error (run_ops (pre ++ OParse x :: post)) (length pre) = Some (RId (accept x)).
 Proof. exact history_independent. Qed.
 Print Assumptions c04_history_independent.
 
@@ -63,8 +64,139 @@ Theorem c04_complete : forall x d r,
 Proof. exact addressed_to_me_accepted. Qed.
 Print Assumptions c04_complete.
 
+(* ---- the whole message: any <Conditions> shape (validity period or none, other children, or no
+   Conditions at all) and any LIST of SubjectConfirmation elements (any number, method, order) ---- *)
+Theorem c04_message : forall x, spec_m x (accept x).
+Proof. exact accept_holds. Qed.
+Print Assumptions c04_message.
+
+Theorem c04_message_reflect : forall x o, spec_m_b x o = true <-> spec_m x o.
+Proof. exact spec_m_b_iff. Qed.
+Print Assumptions c04_message_reflect.
+
+(* the message of c04_addressing (time-bounded Conditions, one bearer confirmation) is a special case:
+   same verdict, same property *)
+Theorem c04_message_extends : forall x, accept (of_input x) = identity x.
+Proof. exact accept_of_input. Qed.
+Print Assumptions c04_message_extends.
+
+Theorem c04_message_spec_extends : forall x o, spec_m (of_input x) o <-> spec x o.
+Proof. exact spec_of_input. Qed.
+Print Assumptions c04_message_spec_extends.
+
+(* the audience verdict never depends on whether the Conditions carry NotBefore / NotOnOrAfter / other children *)
+Theorem c04_period_irrelevant : forall nb nooa other rs me,
+  condition_ok (Some {| k_nb := nb; k_nooa := nooa; k_other := other; k_rs := rs |}) me = for_me rs me.
+Proof. exact period_irrelevant. Qed.
+Print Assumptions c04_period_irrelevant.
+
+(* the subject verdict does not depend on the order of the confirmations (in particular not on which
+   one is last): no confirmation raises, and at least one is kept *)
+Theorem c04_confirmations_closed : forall conv addrs l,
+  get_subject conv addrs l = negb (existsb (raises conv addrs) l) && existsb (keeps conv addrs) l.
+Proof. exact get_subject_closed. Qed.
+Print Assumptions c04_confirmations_closed.
+
+Theorem c04_message_complete : forall x d,
+  (forall q, In q (all_restrictions (m_conds x)) -> In (Some (m_me x)) q) -> m_me x <> EmptyString -> no_outer_ws (m_me x) = true ->
+  m_dest x = Some d -> In (EP d (m_binding x)) (m_specs x) ->
+  m_confs x <> nil ->
+  (forall c, In c (m_confs x) -> exists r, c = bearer (Some r) /\ r <> EmptyString /\ In (EP r (m_binding x)) (m_specs x)) ->
+  accept x = true.
+Proof. exact message_to_me_accepted. Qed.
+Print Assumptions c04_message_complete.
+
 (* tie to the source TEXT: response.for_me as translated from /repo's current source on this run
    (coq/gen/C04Src.v, harness/py2coq.py) computes the model's for_me on every Conditions element *)
 Theorem c04_source_for_me : forall rs me, src_for_me (enc_conditions rs) (PStr me) = PBool (for_me rs me).
 Proof. exact src_for_me_is_model. Qed.
 Print Assumptions c04_source_for_me.
+
+(* ---- tie to the source TEXT, translator v2 (coq/gen/C04Src2.v is re-translated from /repo's current
+   source on every run by harness/py2coq2.py; encodings and hypotheses: C04/Source2.v).  Each theorem:
+   the translated function on the encoding of the model's input = the encoding of the model's output,
+   for ALL inputs; external calls are universally quantified functions constrained by the listed
+   hypotheses only. ---- *)
+
+(* response.for_me, second-generation translation (objects with __class__) *)
+Theorem c04_source2_for_me : forall nbv nooav k me, texts_ok (k_rs k) = true ->
+  src2_for_me (enc_conds nbv nooav k) (PStr me) = PBool (for_me (k_rs k) me).
+Proof. exact src2_for_me_is_model. Qed.
+Print Assumptions c04_source2_for_me.
+
+(* AuthnResponse.verify_recipient *)
+Theorem c04_source2_verify_recipient : forall conv ra addrs r,
+  src2_verify_recipient (enc_vr_self conv ra addrs) (PStr r) = PBool (verify_recipient conv addrs r).
+Proof. exact src2_verify_recipient_is_model. Qed.
+Print Assumptions c04_source2_verify_recipient.
+
+(* AuthnResponse.get_subject: the loop over ALL SubjectConfirmation elements (induction), the
+   Recipient test through the translated verify_recipient, the result / the exception raised *)
+Theorem c04_source2_get_subject :
+  forall (attesting_ext bearer_ext hok_ext : pyval -> pyval -> pyval)
+         (decrypt_ext : pyval -> pyval -> pyval -> pyval) (nameid_ext to_string_ext : pyval -> pyval)
+         (other_uri irt : string),
+  other_uri <> BEARER_URI /\ other_uri <> HOK_URI /\ other_uri <> SV_URI ->
+  (forall s l, attesting_ext s l = PBool true) ->
+  (forall s d, bearer_ext s (enc_data irt d) = PBool (d_confirmed d)) -> (forall s, bearer_ext s PNone = PBool false) ->
+  (forall s d, hok_ext s (enc_data irt d) = PBool (d_confirmed d)) -> (forall s, hok_ext s PNone = PBool false) ->
+  forall conv ra addrs confs nid asyn outq keys,
+  is_bad nid = false -> py_truthy nid = true -> is_obj outq = false ->
+  src2_get_subject attesting_ext bearer_ext hok_ext decrypt_ext nameid_ext to_string_ext
+                   (enc_gs_self other_uri irt conv ra addrs confs nid asyn outq PNone) keys
+  = match gs_exc conv addrs confs with
+    | None => PList (cons nid (cons (enc_gs_self other_uri irt conv ra addrs confs nid asyn outq nid) nil))
+    | Some n => PList (cons (PExc n) (cons (enc_gs_self other_uri irt conv ra addrs confs nid asyn outq PNone) nil))
+    end.
+Proof. exact src2_get_subject_is_model. Qed.
+Print Assumptions c04_source2_get_subject.
+
+(* ... where "no exception" is exactly the model's get_subject *)
+Theorem c04_source2_get_subject_verdict : forall conv addrs l,
+  get_subject conv addrs l = match gs_exc conv addrs l with None => true | Some _ => false end.
+Proof. exact gs_exc_model. Qed.
+Print Assumptions c04_source2_get_subject_verdict.
+
+(* StatusResponse._verify: the Destination test *)
+Theorem c04_source2_verify : forall (issue_ok status_ok float_ext : pyval -> pyval) (float_two : pyval),
+  (forall s, issue_ok s = PBool true) -> (forall s, status_ok s = PBool true) ->
+  forall b dest addrs irt,
+  src2_verify issue_ok status_ok float_ext float_two (enc_sr_self (asynchop b) dest addrs irt)
+  = if dest_ok b dest addrs then PBool true else PNone.
+Proof. exact src2_verify_is_model. Qed.
+Print Assumptions c04_source2_verify.
+
+(* AuthnResponse.condition_ok: audience verdict for every Conditions shape *)
+Theorem c04_source2_condition_ok :
+  forall (later_than_ext validate_nooa_ext validate_nb_ext : pyval -> pyval -> pyval) (keyswv_ext : pyval -> pyval)
+         (nbv nooav : string) (nooa_epoch : Z),
+  (forall k, keyswv_ext (enc_conds nbv nooav k) = enc_strs (keyswv_model k)) ->
+  (forall a b, later_than_ext (PStr a) (PStr b) = PBool true) ->
+  (forall a s, validate_nooa_ext (PStr a) s = PInt nooa_epoch) ->
+  (forall a s, validate_nb_ext (PStr a) s = PBool true) ->
+  nbv <> EmptyString /\ nooav <> EmptyString ->
+  forall c me nooa0, is_bad nooa0 = false -> texts_ok (all_restrictions c) = true ->
+  src2_condition_ok later_than_ext validate_nooa_ext validate_nb_ext keyswv_ext (enc_co_self nbv nooav c me nooa0) (PBool false)
+  = PList (cons (if condition_ok c me then PBool true else PExc "Exception")
+                (cons (enc_co_self nbv nooav c me (nooa_after nooa_epoch c nooa0)) nil)).
+Proof. exact src2_condition_ok_is_model. Qed.
+Print Assumptions c04_source2_condition_ok.
+
+(* Config.endpoint (configurations of (url, binding) pairs) and Base.service_urls on top of it *)
+Theorem c04_source2_endpoint : forall (getattr_ext : pyval -> pyval -> pyval -> pyval) (type_ext : pyval -> pyval),
+  (forall l, type_ext (PList l) = PStr "tuple") ->
+  forall cfg ctx endps svc l b,
+  is_bad ctx = false -> getattr_ext cfg (PStr "endpoints") ctx = PObj endps ->
+  is_obj endps = false -> assoc_py svc endps = Some (PList (map enc_pair l)) ->
+  src2_endpoint getattr_ext type_ext cfg (PStr svc) (PStr b) ctx = enc_strs (endpoint (map mk_ep l) b).
+Proof. exact src2_endpoint_is_model. Qed.
+Print Assumptions c04_source2_endpoint.
+
+Theorem c04_source2_service_urls : forall (getattr_ext : pyval -> pyval -> pyval -> pyval) (type_ext : pyval -> pyval),
+  (forall l, type_ext (PList l) = PStr "tuple") ->
+  forall self cfg endps l b,
+  p2_attr self "config" = cfg -> getattr_ext cfg (PStr "endpoints") (PStr "sp") = PObj endps ->
+  is_obj endps = false -> assoc_py "assertion_consumer_service" endps = Some (PList (map enc_pair l)) ->
+  src2_service_urls getattr_ext type_ext self (PStr b) = enc_urls (service_urls (map mk_ep l) b).
+Proof. exact src2_service_urls_is_model. Qed.
+Print Assumptions c04_source2_service_urls.
